@@ -142,6 +142,15 @@ def pair_relation(ck: Checker, fn: Func, g, n, c: ast.Call) -> Tuple[bool, str]:
                 if vt.endswith(".value") and vt.split(".")[0] in bound and isinstance(v.generators[0].iter, ast.Call) and is_method_call(v.generators[0].iter, "items"):
                     return True, f"paths/oids are the {dp[1]}/{do[1]} of `{dname}` built from single (path, hash) items of one mapping"
                 return False, f"dict {dname}: value `{vt}` is not the hash recorded for the key `{ktxt}`"
+        from ..an import collection_builds
+
+        for b in collection_builds(g, fn.node, dname):
+            if b.key is None or not b.unconditional:
+                continue
+            kexpr, vexpr = (b.key, b.elt) if dp[1] == "keys" else (b.elt, b.key)
+            ktxt, vt = norm(kexpr), norm(vexpr)
+            if ktxt in b.target_names() and f"[{ktxt}]" in vt and vt.endswith(".value"):
+                return True, f"paths/oids are the {dp[1]}/{do[1]} of `{dname}`, filled in a loop with {dname}[path] = hashes[path].value"
         return False, f"cannot find how dict `{dname}` is built"
     # D. digest of the stream uploaded to that path
     for alt in o_alts:
@@ -278,6 +287,7 @@ def _keyfaithful(ck: Checker) -> None:
             ck.require(ok, "C01.keyfaithful", w, r, "worker returns (its own path, hash_file(that path))", f"worker returns {why}: the hash is not keyed by the path it was computed from")
         # both size classes go through the same worker
     uses = [norm(c.args[0]) for c in walk_own(hf.node) if isinstance(c, ast.Call) and call_name(c) in ("map", "imap_unordered", "imap") and c.args]
+    uses += [c.func.id for c in walk_own(hf.node) if isinstance(c, ast.Call) and isinstance(c.func, ast.Name) and c.func.id in hf.children]
     ck.require(len(set(uses)) == 1 and len(uses) >= 2, "C01.keyfaithful", hf, hf.node, "small and large files are hashed by the same worker", f"different workers for different size classes: {uses}", construct="_hash_files / one worker")
     gh = prog.func("hashfile.build", "_get_hashes")
     g = ck.cfg(gh)
@@ -289,8 +299,16 @@ def _keyfaithful(ck: Checker) -> None:
         vals = {x.id for x in walk_expr(s.ast.value) if isinstance(x, ast.Name)}
         ok = key == tnames[0] and len(vals & set(tnames[1:])) >= 2
         ck.require(ok, "C01.keyfaithful", gh, s, "a state hit is filed under the path it was returned for", f"state hit is stored as {s.text()}: key and values are not components of one get_many row")
-    src = " ".join(norm(x) for x in walk_own(gh.node) if isinstance(x, (ast.Assign, ast.AnnAssign, ast.Expr)))
-    ck.require("dict(hashes_it)" in src and "hashes.update(new_hashes)" in src, "C01.keyfaithful", gh, gh.node, "fresh hashes are merged by key (dict(...), update)", "fresh hashes are no longer merged into the result by path key", construct="new_hashes = dict(hashes_it); hashes.update(new_hashes)")
+    retn = [r.value.id for r in walk_own(gh.node) if isinstance(r, ast.Return) and isinstance(r.value, ast.Name)]
+    hfc = [c for c in walk_own(gh.node) if isinstance(c, ast.Call) and call_name(c) == "_hash_files"]
+    merged = False
+    for n in g.nodes.values():
+        for c in calls_at(n):
+            if is_method_call(c, "update") and retn and norm(c.func.value) == retn[0] and c.args:
+                for alt in [c.args[0]] + [getattr(d.ast, "value", None) for d in (reaching_defs(g, n.id, c.args[0].id) if isinstance(c.args[0], ast.Name) else [])]:
+                    if isinstance(alt, ast.Call) and call_name(alt) == "dict" and alt.args and flows_from_calls(g, n, alt.args[0], hfc):
+                        merged = True
+    ck.require(merged, "C01.keyfaithful", gh, gh.node, "fresh hashes are merged into the result by key (dict(rows) then update)", "fresh hashes are no longer merged into the result by path key", construct="result.update(dict(<fresh rows>))")
     hfile = prog.func("hashfile.hash", "hash_file")
     g2 = ck.cfg(hfile)
     inner = [c for c in walk_own(hfile.node) if isinstance(c, ast.Call) and call_name(c) == "_hash_file"]
